@@ -341,9 +341,12 @@ impl RoutePattern {
             } = right;
 
             for (left, right) in segs_left.iter().zip(segs_right.iter()) {
+                // Matching compares literal segments after percent-decoding (see `unapply_parts`), so the
+                // ambiguity check must do the same: "/a%62" and "/ab" match exactly the same routes.
                 if !left.parameter
                     && !right.parameter
-                    && left.segment_str(pat_left.as_str()) != right.segment_str(pat_right.as_str())
+                    && !percent_decode_str(left.segment_str(pat_left.as_str()))
+                        .eq(percent_decode_str(right.segment_str(pat_right.as_str())))
                 {
                     return false;
                 }
